@@ -152,7 +152,7 @@ pub fn run(part: &mut Part) {
             let profiles = if TINY {
                 vec![
                     prof("empty x A_roll", vec![seed_empty()], a_roll(), if q { 4 } else { 5 }),
-                    prof("structural seeds x A_roll", structural_seeds(), a_roll(), if q { 3 } else { 4 }),
+                    prof("structural seeds x A_roll", structural_seeds(), a_roll(), if q { 4 } else { 5 }),
                     prof("cursor near file end / all-dead file x A_roll", file_end, a_roll(), if q { 3 } else { 4 }),
                 ]
             } else {
@@ -485,7 +485,7 @@ pub fn run(part: &mut Part) {
             seeds.extend(gc_spill_seeds().into_iter().take(4));
             let profiles = if TINY {
                 vec![
-                    prof("empty x A_roll", vec![seed_empty()], a_roll(), if q { 4 } else { 5 }),
+                    prof("empty x A_roll", vec![seed_empty()], a_roll(), if q { 5 } else { 6 }),
                     prof("shared-file seeds x A_roll", seeds, a_roll(), if q { 3 } else { 4 }),
                 ]
             } else {
@@ -516,7 +516,7 @@ pub fn run(part: &mut Part) {
             let seeds = vec![seed_ab(), seed_two_files(), seed_three_files(), seed_interleaved(), seed_gc_ready()];
             let mut alpha = a_write();
             alpha.push(Op::app(QA, Pos::Auto, Sz::XL));
-            let profiles = vec![prof("1-3 file seeds x (A_write + XL)", seeds, alpha, if q { 1 } else if TINY { 3 } else { 2 })];
+            let profiles = vec![prof("1-3 file seeds x (A_write + XL)", seeds, alpha, if TINY { if q { 2 } else { 3 } } else if q { 1 } else { 2 })];
             let descr: Vec<_> = profiles.iter().map(|p| p.describe()).collect();
             let stats = explore(&profiles, part.seed, |env, leaf| {
                 crate::fault::fault_leaf(env, leaf, false);
